@@ -814,21 +814,8 @@ def gen_call(g, f):
         if x < 0.08:
             args = args[:r.choice([1, 2])]
     elif f == 'deep-merge':
-        m1 = g.mapish()
-        m2 = g.mapish()
-        if m1[0] == 'map' and m2[0] == 'map' and m1[1] and x < 0.7:
-            # overlap: reuse keys of m1 with new values
-            ps, seen = [], set()
-            for k, v in m1[1]:
-                if r.random() < 0.6:
-                    nv = g.map(1, 2) if (v[0] == 'map' and r.random() < 0.7) else g.value(1, False)
-                    ps.append((k, nv))
-                    seen.add(key_id(k))
-            for k, v in m2[1]:
-                if key_id(k) not in seen:
-                    seen.add(key_id(k))
-                    ps.append((k, v))
-            m2 = ('map', ps)
+        m1 = g.mapish() if x < 0.5 else g.map(3, 3, allow_empty=False)
+        m2 = overlap_map(g, m1) if (m1[0] == 'map' and m1[1] and r.random() < 0.75) else g.mapish()
         args = [m1, m2]
     elif f == 'deep-remove':
         m = g.mapish()
@@ -869,6 +856,135 @@ def gen_call(g, f):
     elif y < 0.11 and len(args) > 1:
         args = args[:r.randint(1, len(args) - 1)]
     return (f, [sanitize_str(a) for a in args])
+
+
+def small_operand(g):
+    """operands on which separator/bracket inference has something to decide: single values, empty and
+    one-element lists are as frequent as proper lists"""
+    r = g.r
+
+    def a():
+        return r.choice([ustr('a'), ustr('b'), ustr('c'), num(1), num(2), qstr('x y'), TRUE, NULL])
+    k = r.randrange(17)
+    if k <= 1:
+        return a()
+    if k == 2:
+        return lst([], 'undecided')
+    if k == 3:
+        return lst([], 'undecided', True)
+    if k == 4:
+        return lst([a()], 'comma')
+    if k == 5:
+        return lst([a()], 'undecided', True)
+    if k == 6:
+        return lst([a()], 'comma', True)
+    if k == 7:
+        return lst([a(), a()], 'space')
+    if k == 8:
+        return lst([a(), a()], 'comma')
+    if k == 9:
+        return lst([a(), a()], r.choice(['space', 'comma']), True)
+    if k == 10:
+        return lst([a(), a()], 'slash')
+    if k == 11:
+        return ('map', [(ustr('k'), a())])
+    if k == 12:
+        return ('arglist', [a() for _ in range(r.randint(0, 2))])
+    if k == 13:
+        return lst([a(), a(), a()], r.choice(['space', 'comma']))
+    if k == 14:
+        return lst([lst([a(), a()], r.choice(['space', 'comma'])), a()], r.choice(['space', 'comma']))
+    return g.list(1, 3)
+
+
+def sep_arg(g, with_bad=False):
+    r = g.r
+    return r.choice([ustr('auto'), ustr('auto'), ustr('comma'), ustr('space'), ustr('slash'), qstr('auto')]
+                    + ([ustr('foo')] if with_bad else []))
+
+
+def gen_list_expr(g, depth):
+    """an expression tree producing a list out of join/append (mostly), zip, set-nth over small operands"""
+    r = g.r
+
+    def operand(d):
+        if d > 0 and r.random() < 0.55:
+            return gen_list_expr(g, d - 1)
+        return small_operand(g)
+    x = r.random()
+    if x < 0.5:
+        args = [operand(depth), operand(depth)]
+        if r.random() < 0.2:
+            args.append(sep_arg(g))
+            if r.random() < 0.3:
+                args.append(r.choice([ustr('auto'), TRUE, FALSE, NULL]))
+        return ('call', 'join', args)
+    if x < 0.85:
+        args = [operand(depth), small_operand(g) if r.random() < 0.4 else g.atom()]
+        if r.random() < 0.2:
+            args.append(sep_arg(g))
+        return ('call', 'append', [sanitize_str(a) if not is_call(a) else a for a in args])
+    if x < 0.93:
+        return ('call', 'zip', [operand(depth) for _ in range(r.choice([1, 2, 2]))])
+    return ('call', 'set-nth', [operand(depth), num(r.choice([1, -1, 2])), sanitize_str(g.atom())])
+
+
+def gen_nested(g):
+    """a list function applied to the result of another: separator and brackets of every intermediate result are
+    observed, so what a result carries inside (not only what it prints) matters"""
+    r = g.r
+    inner = gen_list_expr(g, r.choice([0, 0, 1, 1, 2]))
+    x = r.random()
+    if x < 0.30:
+        other = gen_list_expr(g, 0) if r.random() < 0.3 else small_operand(g)
+        args = [inner, other] if r.random() < 0.6 else [other, inner]
+        if r.random() < 0.15:
+            args.append(sep_arg(g, True))
+        return ('join', args)
+    if x < 0.50:
+        args = [inner, sanitize_str(g.atom()) if r.random() < 0.7 else small_operand(g)]
+        if r.random() < 0.25:
+            args.append(sep_arg(g, True))
+        return ('append', args)
+    if x < 0.56:
+        return ('append', [small_operand(g), inner])
+    if x < 0.64:
+        return ('zip', [inner, small_operand(g)] if r.random() < 0.5 else [small_operand(g), inner])
+    if x < 0.72:
+        return ('set-nth', [inner, num(r.choice([1, -1, 2, -2])), sanitize_str(g.atom())])
+    if x < 0.80:
+        return ('nth', [inner, num(r.choice([1, -1, 2, 3]))])
+    if x < 0.86:
+        return ('index', [inner, r.choice([ustr('a'), ustr('b'), num(1), lst([ustr('a'), ustr('b')])])])
+    if x < 0.91:
+        return ('length', [inner])
+    if x < 0.96:
+        return ('list-separator', [inner])
+    return ('is-bracketed', [inner])
+
+
+def overlap_map(g, m, depth=0):
+    """a map sharing keys with `m`, recursively through nested maps (for deep-merge)"""
+    r = g.r
+    ps, seen = [], set()
+    for k, v in m[1]:
+        x = r.random()
+        if x < 0.25:
+            continue
+        if v[0] == 'map' and v[1] and x < 0.85:
+            nv = overlap_map(g, v, depth + 1)
+        else:
+            nv = g.value(1, False) if r.random() < 0.7 else g.map(1, 2)
+        ps.append((k, nv))
+        seen.add(key_id(k))
+    for _ in range(r.choice([0, 1, 1, 2])):
+        k = g.key()
+        if key_id(k) not in seen:
+            seen.add(key_id(k))
+            ps.append((k, g.value(1, False)))
+    for k, _ in m[1]:
+        seen.add(key_id(k))
+    return ('map', ps)
 
 
 FUNCS = list(MODULE)
@@ -951,6 +1067,29 @@ CORPUS = [
     ('split', [qstr('a,b,c'), qstr(','), num(1, 'px')]),
     ('split', [qstr('a,b,c'), qstr(','), num(0)]),
     ('split', [qstr('abc'), qstr('x')]),
+    # seeded C14-m1: a result that keeps no separator inside shows only in a second step or through ==
+    ('join', [('call', 'join', [ustr('a'), ustr('b')]), lst([ustr('c'), ustr('d')], 'comma')]),
+    ('list-separator', [('call', 'join', [('call', 'join', [ustr('a'), ustr('b')]), lst([ustr('c'), ustr('d')], 'comma')])]),
+    ('join', [ustr('a'), ustr('b')]),
+    ('join', [lst([], 'undecided'), ustr('x')]),
+    ('join', [ustr('x'), lst([], 'undecided')]),
+    ('join', [lst([], 'undecided'), lst([], 'undecided')]),
+    ('join', [lst([ustr('a')], 'undecided', True), ustr('b')]),
+    ('join', [ustr('a'), lst([ustr('b')], 'comma')]),
+    ('append', [('call', 'join', [ustr('a'), ustr('b')]), ustr('c')]),
+    ('append', [('call', 'join', [ustr('a'), ustr('b')]), ustr('c'), ustr('auto')]),
+    ('join', [('call', 'append', [lst([], 'undecided'), ustr('a')]), lst([ustr('c'), ustr('d')], 'slash')]),
+    ('join', [lst([ustr('c'), ustr('d')], 'comma'), ('call', 'join', [ustr('a'), ustr('b')])]),
+    ('join', [('call', 'join', [lst([], 'undecided'), lst([], 'undecided')]), lst([ustr('c'), ustr('d')], 'comma')]),
+    ('zip', [('call', 'join', [ustr('a'), ustr('b')]), lst([num(1), num(2)])]),
+    ('set-nth', [('call', 'join', [ustr('a'), ustr('b')]), num(1), ustr('z')]),
+    ('append', [('call', 'append', [ustr('a'), ustr('b')]), ustr('c')]),
+    ('index', [('call', 'append', [lst([], 'undecided'), ('call', 'join', [ustr('a'), ustr('b')])]), lst([ustr('a'), ustr('b')])]),
+    # seeded C14-m2 / m3
+    ('str-slice', [qstr('café!'), num(-2), num(-1)]),
+    ('str-slice', [qstr('\U0001F46Dab'), num(1), num(-2)]),
+    ('deep-merge', [('map', [(ustr('a'), ('map', [(ustr('b'), ('map', [(ustr('c'), num(1)), (ustr('d'), num(2))]))]))]),
+                    ('map', [(ustr('a'), ('map', [(ustr('b'), ('map', [(ustr('d'), num(3))]))]))])]),
     # the first argument is checked before a later one is found missing
     ('deep-merge', [ustr('foo')]),
     ('deep-merge', [('map', [(ustr('a'), num(1))])]),
@@ -1062,14 +1201,80 @@ def observe(pool, items, batch=150):
     return res
 
 
-def model_calls(cases):
-    lines = []
-    for f, args in cases:
-        body = f"{f} {len(args)} " + " ".join(enc(a) for a in args)
-        lines.append("blt call now " + body)
-        lines.append("blt call beforefix " + body)
-    outs = driver(lines)
-    return [(outs[2 * i], outs[2 * i + 1]) for i in range(len(cases))]
+def is_call(a):
+    return isinstance(a, tuple) and len(a) == 3 and a[0] == 'call'
+
+
+def expr_src(node, module):
+    """source of an expression tree: ('call', fname, [argument…]) with values or further calls as arguments"""
+    if is_call(node):
+        name = MODULE[node[1]] if module else node[1]
+        return name + '(' + ', '.join(expr_src(a, module) for a in node[2]) + ')'
+    return src(node)
+
+
+def module_only(node):
+    return is_call(node) and (node[1] in MODULE_ONLY or any(module_only(a) for a in node[2]))
+
+
+def postorder(node, out=None):
+    out = [] if out is None else out
+    for a in node[2]:
+        if is_call(a):
+            postorder(a, out)
+    out.append(node)
+    return out
+
+
+def literal(v):
+    """literal spelling of a value that has exactly this internal form (separator and brackets included),
+    or None: `(a b)` Space, `(a, b)`/`(a,)` Comma, `[a]`/`[]`/`()` Undecided, list.slash(a, b) Slash; a 0/1-element
+    list with a decided space separator, an empty comma list, … have no literal."""
+    k = v[0]
+    if k in ('null', 'bool'):
+        return src(v)
+    if k == 'num':
+        try:
+            return src(v)
+        except ValueError:
+            return None
+    if k == 'str':
+        return src(v) if (v[2] or _ident(v[1])) else None
+    if k == 'map':
+        if not v[1]:
+            return src(v)
+        parts = []
+        for a, b in v[1]:
+            la, lb = literal(a), literal(b)
+            if la is None or lb is None:
+                return None
+            parts.append(la + ': ' + lb)
+        return '(' + ', '.join(parts) + ')'
+    if k == 'arglist':
+        inner = [literal(e) for e in v[1]]
+        return None if any(x is None for x in inner) else 'a(' + ', '.join(inner) + ')'
+    if k == 'list':
+        es, sep, br = v[1], v[2], v[3]
+        inner = [literal(e) for e in es]
+        if any(x is None for x in inner):
+            return None
+        n = len(es)
+        if sep == 'slash':
+            return 'list.slash(' + ', '.join(inner) + ')' if n >= 2 and not br else None
+        if br:
+            if sep == 'comma' and n >= 1:
+                return '[' + ', '.join(inner) + (',' if n == 1 else '') + ']'
+            if sep == 'space' and n >= 2 or sep == 'undecided' and n <= 1:
+                return '[' + ' '.join(inner) + ']'
+            return None
+        if n == 0:
+            return '()' if sep == 'undecided' else None
+        if sep == 'comma':
+            return '(' + ', '.join(inner) + (',' if n == 1 else '') + ')'
+        if sep == 'space' and n >= 2:
+            return '(' + ' '.join(inner) + ')'
+        return None
+    return None
 
 
 def model_obs(ans):
@@ -1082,6 +1287,41 @@ def model_obs(ans):
     if ans == 'unsupported':
         return ('unsupported',)
     return ('bad', ans)
+
+
+def model_eval(tops, variant):
+    """the model's answer for every call node of the expression trees (nested calls are evaluated by composing the
+    model functions: inner results are fed, exactly, into the outer call; the first failing argument decides)"""
+    nodes = []
+    for t in tops:
+        postorder(t, nodes)
+    res = {}
+    pending = nodes
+    while pending:
+        ready, later, lines = [], [], []
+        for n in pending:
+            if id(n) in res:
+                continue
+            subs = [a for a in n[2] if is_call(a)]
+            if any(id(a) not in res for a in subs):
+                later.append(n)
+                continue
+            bad = next((res[id(a)] for a in subs if res[id(a)][0] != 'ok'), None)
+            if bad is not None:
+                res[id(n)] = bad
+                continue
+            vals = [res[id(a)][1] if is_call(a) else a for a in n[2]]
+            ready.append(n)
+            lines.append(f"blt call {variant} {n[1]} {len(vals)} " + " ".join(enc(v) for v in vals))
+        outs = driver(lines) if lines else []
+        for n, o in zip(ready, outs):
+            res[id(n)] = model_obs(o)
+            if res[id(n)][0] == 'bad':
+                raise RuntimeError(f"driver answered {o!r} for {expr_src(n, True)}")
+        if later and not ready and all(id(n) not in res for n in later):
+            raise RuntimeError("model_eval: no progress")
+        pending = later
+    return res
 
 
 def same_obs(o, v):
@@ -1097,23 +1337,63 @@ def same_obs(o, v):
 
 
 def case_text(f, args):
-    return call_src(f, args, f in MODULE_ONLY)
+    return expr_src(('call', f, args), module_only(('call', f, args)))
+
+
+def build_probes(cases):
+    """every call node of every case (intermediate results included) becomes a probe, plus, for each list-valued
+    result the model knows and that has a literal spelling, `E == literal` and `literal == E`."""
+    tops = [('call', f, list(args)) for f, args in cases]
+    now, old = model_eval(tops, 'now'), model_eval(tops, 'beforefix')
+    probes, seen, eqs = [], set(), []
+    for t in tops:
+        for n in postorder(t):
+            mo = module_only(n)
+            tm = expr_src(n, True)
+            if tm in seen:
+                continue
+            seen.add(tm)
+            texts = [tm] if mo else [expr_src(n, False), tm]
+            p = {"f": n[1], "node": n, "texts": texts, "now": now[id(n)], "old": old[id(n)], "kind": "call",
+                 "nested": any(is_call(a) for a in n[2]), "inner": n is not t}
+            probes.append(p)
+            m = p["now"]
+            if m[0] == 'ok' and m[1][0] == 'list':
+                L = literal(m[1])
+                if L is not None:
+                    eqs.append((p, L))
+    lines = []
+    for p, L in eqs:
+        v = p["now"][1]
+        lines.append(f"blt eq now {enc(v)} {enc(v)}")
+        lines.append(f"blt eq beforefix {enc(p['old'][1]) if p['old'][0] == 'ok' else enc(v)} {enc(v)}")
+    outs = driver(lines) if lines else []
+    for j, (p, L) in enumerate(eqs):
+        a, b = outs[2 * j].split(), outs[2 * j + 1].split()
+        if a[0] != 'ok' or b[0] != 'ok':
+            raise RuntimeError(f"driver answered {outs[2 * j]!r} / {outs[2 * j + 1]!r} for blt eq")
+        for order in (0, 1):
+            texts = [(f"{t} == {L}" if order == 0 else f"{L} == {t}") for t in p["texts"]]
+            oldm = ('ok', ('bool', b[1 + order] == '1')) if p["old"][0] == 'ok' else p["old"]
+            probes.append({"f": p["f"], "node": p["node"], "texts": texts, "now": ('ok', ('bool', a[1 + order] == '1')),
+                           "old": oldm, "kind": "eq", "nested": p["nested"], "inner": p["inner"]})
+    return probes
 
 
 def evaluate(ck, pool, cases, direct_only=False):
-    """correspondence + documented-vs-as-found on `cases`; returns failures of the documented semantics"""
-    models = model_calls(cases)
+    """correspondence (model of the code as it stands vs grass, every intermediate result, `==` against the literal
+    spelling) + regression guard on `cases`; returns failures of the documented semantics"""
+    probes = build_probes(cases)
     ok_items, ok_idx, err_idx = [], [], []
-    for i, ((f, args), (now, _)) in enumerate(zip(cases, models)):
-        m = model_obs(now)
-        if m[0] == 'unsupported' or m[0] == 'bad':
+    for i, p in enumerate(probes):
+        m = p["now"]
+        if m[0] == 'unsupported':
             continue
-        exprs = [call_src(f, args, True)] if f in MODULE_ONLY else [call_src(f, args, False), call_src(f, args, True)]
         if m[0] == 'ok':
-            ok_items.append(exprs)
+            ok_items.append(p["texts"])
             ok_idx.append(i)
         else:
-            err_idx.append((i, exprs))
+            err_idx.append((i, p["texts"]))
     got = observe(pool, ok_items)
     impl = {}
     for i, g in zip(ok_idx, got):
@@ -1137,59 +1417,65 @@ def evaluate(ck, pool, cases, direct_only=False):
                 per.append(('status', a.get("status"), str(a.get("panic") or '')[:300]))
         impl[i] = ('multi', per)
     failing = []
-    for i, ((f, args), (now, doc)) in enumerate(zip(cases, models)):
-        m, d = model_obs(now), model_obs(doc)
-        text = case_text(f, args)
-        if m[0] == 'bad':
-            raise RuntimeError(f"driver answered {now!r} for {text}")
+    for i, p in enumerate(probes):
+        m, d, f = p["now"], p["old"], p["f"]
+        text = p["texts"][-1]
+        args = p["node"][2]
         if m[0] == 'unsupported':
             ck.cov["unsupported_dropped"] += 1
             ck.hist("unsupported:" + f)
             continue
         g = impl[i]
-        # per-name observations
         if g[0] == 'multi':
             per = g[1]
         elif g[0] == 'ok':
             per = [('ok', o) for o in g[1]]
         else:
-            per = [g] * (1 if f in MODULE_ONLY else 2)
-        ck.count(('c14', f, [enc(a) for a in args]), nontrivial=bool(args))
-        ck.hist("fn:" + f)
-        if args:
-            a0 = args[0]
-            ck.hist("arg0:" + (f"list/{a0[2]}/{'br' if a0[3] else 'plain'}/len={len(a0[1])}" if a0[0] == 'list'
-                               else f"str/len={len(a0[1])}" if a0[0] == 'str' else a0[0]))
-        ck.hist(f"arity={len(args)}")
+            per = [g] * len(p["texts"])
+        ck.count(('c14', text), nontrivial=bool(args))
+        if p["kind"] == 'eq':
+            ck.hist("probe:== against the literal spelling")
+        else:
+            ck.hist("fn:" + f)
+            ck.hist("probe:" + ("intermediate result of a nested call" if p["inner"] else
+                                "nested call" if p["nested"] else "single call"))
+            if args and not is_call(args[0]):
+                a0 = args[0]
+                ck.hist("arg0:" + (f"list/{a0[2]}/{'br' if a0[3] else 'plain'}/len={len(a0[1])}" if a0[0] == 'list'
+                                   else f"str/len={len(a0[1])}" if a0[0] == 'str' else a0[0]))
+            ck.hist(f"arity={len(args)}")
         ck.hist("model:" + (m[0] if m[0] == 'ok' else 'err:' + m[1]))
-        if len(ck.cov["samples"]) < 8 and i % 211 == 0:
-            ck.sample({"call": text, "model": now, "impl": [list(p[:2]) for p in per]})
+        if len(ck.cov["samples"]) < 8 and i % 397 == 0:
+            ck.sample({"expression": text, "model": [m[0], show(m[1]) if m[0] == 'ok' else m[1]],
+                       "impl": [list(q[:2]) for q in per]})
 
-        def agrees(p, mm):
+        def agrees(q, mm):
             if mm[0] == 'ok':
-                return p[0] == 'ok' and same_obs(p[1], mm[1])
-            return p[0] == 'err' and p[1] == mm[1]
-        names_agree = all(agrees(p, m) for p in per)
+                return q[0] == 'ok' and same_obs(q[1], mm[1])
+            return q[0] == 'err' and q[1] == mm[1]
+        names_agree = all(agrees(q, m) for q in per)
         if len(per) == 2:
             same_names = (per[0][0] == per[1][0]) and (per[0][1] == per[1][1])
             if not same_names:
                 ck.hist("module≠global")
-                failing.append({"call": text, "why": "module member and global alias differ",
+                failing.append({"call": " ; ".join(p["texts"]), "why": "module member and global alias differ",
                                 "global": list(per[0][:2]), "module": list(per[1][:2]), "tags": []})
         if not names_agree and not direct_only:
             ck.cov["model_disagreements"] += 1
-            ck.hist("disagree:" + f)
+            ck.hist("disagree:" + f + ("/==" if p["kind"] == 'eq' else ""))
             if len(ck.disagreements) < 10:
-                ck.disagreements.append({"call": text, "model_now": now, "impl": [list(p) for p in per]})
+                ck.disagreements.append({"call": text, "model_now": [m[0], show(m[1]) if m[0] == 'ok' else m[1]],
+                                         "impl": [list(q) for q in per]})
         # regression guard: the pre-repair model differs here and grass answers as it did before the repair
         if d != m and d[0] != 'unsupported':
             ck.hist("now≠before-fix:" + (known_tag(f, args) or f))
-            if all(agrees(p, d) for p in per):
-                failing.append({"call": text, "why": "grass answers as it did before the repair of " + (known_tag(f, args) or "?")
-                                + ", not as documented", "documented": now, "before_fix": doc,
-                                "impl": [list(p[:2]) for p in per], "tags": []})
-        if any(p[0] == 'status' for p in per):
-            failing.append({"call": text, "why": "abnormal status", "impl": [list(p) for p in per], "tags": []})
+            if all(agrees(q, d) for q in per):
+                failing.append({"call": text, "why": "grass answers as it did before the repair of K14a-K14d, not as documented",
+                                "documented": [m[0], show(m[1]) if m[0] == 'ok' else m[1]],
+                                "before_fix": [d[0], show(d[1]) if d[0] == 'ok' else d[1]],
+                                "impl": [list(q[:2]) for q in per], "tags": []})
+        if any(q[0] == 'status' for q in per):
+            failing.append({"call": text, "why": "abnormal status", "impl": [list(q) for q in per], "tags": []})
     return failing
 
 
@@ -1264,7 +1550,8 @@ def gen_law(g):
     """(law name, [expr…], builder(values)->driver line or None, tag-if-fails)"""
     r = g.r
     name = r.choice(['length_append', 'length_append', 'nth_set_nth', 'nth_neg', 'length_join', 'join_sep', 'zip_length',
-                     'slice_concat', 'length_slice', 'length_insert', 'index_slice', 'unquote_quote',
+                     'slice_concat', 'length_slice', 'slice_neg', 'slice_neg', 'length_insert', 'index_slice', 'unquote_quote',
+                     'eq_literal', 'eq_literal', 'eq_literal',
                      'get_merge', 'keys_merge', 'get_set', 'remove_get', 'deep_merge_get'])
     S = src
     if name == 'length_append':
@@ -1316,6 +1603,37 @@ def gen_law(g):
         b = r.randint(a, n)
         ex = [f"str-length(str-slice({S(s)}, {a}, {b}))"]
         return name, ex, lambda vs: f"blt law length_slice {a} {b} " + enc(vs[0]), None
+    if name == 'slice_neg':
+        s = g.string()
+        n = len(s[1])
+        if n == 0:
+            s, n = qstr('café!'), 5
+        k = r.randint(1, n)
+        e = r.choice([-1, n, r.randint(-n, n), r.randint(1, n)])
+        if r.random() < 0.5:
+            ex = [f"str-slice({S(s)}, {-k}, {e})", f"str-slice({S(s)}, {n - k + 1}, {e})"]
+        else:
+            ex = [f"str-slice({S(s)}, {e}, {-k})", f"str-slice({S(s)}, {e}, {n - k + 1})"]
+        return name, ex, lambda vs: "blt law slice_neg 2 " + " ".join(map(enc, vs)), None
+    if name == 'eq_literal':
+        # phase 1 observes E; phase 2 (run_laws) spells the literal from grass's OWN answers and asks grass E == literal
+        def opnd():
+            x = r.random()
+            if x < 0.35:
+                return simple_value(g, 0)
+            if x < 0.5:
+                return lst([], 'undecided', r.random() < 0.3)
+            return simple_list(g)
+        def expr(d):
+            x = r.random()
+            l = expr(d - 1) if d > 0 and x < 0.5 else S(opnd())
+            if r.random() < 0.55:
+                rr = expr(d - 1) if d > 0 and r.random() < 0.3 else S(opnd())
+                sepa = r.choice(['', '', '', ', auto', ', comma', ', space'])
+                return f"join({l}, {rr}{sepa})"
+            return f"append({l}, {S(simple_value(g, 0))}{r.choice(['', '', '', ', auto', ', comma', ', space'])})"
+        e = expr(r.choice([0, 1, 1, 2]))
+        return name, [e], None, None
     if name == 'length_insert':
         s, ins = g.string(), g.string()
         i = r.randint(-10, 10)
@@ -1376,6 +1694,7 @@ def run_laws(ck, pool, n):
     got = observe(pool, [ex for _, ex, _, _ in laws], batch=100)
     lines, keep = [], []
     failing = []
+    second = []           # eq_literal: (expression, literal spelt from grass's own answers)
     for (name, ex, build, tag), res in zip(laws, got):
         ck.hist("law:" + name)
         if res[0] != 'ok':
@@ -1387,8 +1706,29 @@ def run_laws(ck, pool, n):
             ck.cov["unsupported_dropped"] += 1
             ck.hist("law-unparsed:" + name)
             continue
+        if name == 'eq_literal':
+            v = vals[0]
+            L = literal(v) if (v[0] == 'list' and len(v[1]) >= 2) else None
+            if L is None:
+                ck.hist("law-guard-not-met:eq_literal (fewer than 2 elements)")
+                continue
+            second.append((ex[0], L))
+            continue
         lines.append(build(vals))
         keep.append((name, ex, tag, res[1]))
+    if second:
+        got2 = observe(pool, [[f"{e} == {L}", f"{L} == {e}"] for e, L in second], batch=100)
+        for (e, L), res in zip(second, got2):
+            ex = [f"{e} == {L}", f"{L} == {e}"]
+            if res[0] != 'ok':
+                failing.append({"call": " ; ".join(ex), "why": "law eq_literal: the comparison did not evaluate", "impl": list(res), "tags": []})
+                continue
+            vals = [obs_value(o) for o in res[1]]
+            if any(v is None for v in vals):
+                ck.cov["unsupported_dropped"] += 1
+                continue
+            lines.append("blt law eq_literal 2 " + " ".join(map(enc, vals)))
+            keep.append(('eq_literal', ex, None, res[1]))
     outs = driver(lines) if lines else []
     for (name, ex, tag, obs), out in zip(keep, outs):
         ck.count(('law', name, ex), True)
@@ -1401,16 +1741,18 @@ def run_laws(ck, pool, n):
     return failing
 
 
-SIZES = {"quick": (6000, 1500), "thorough": (110000, 25000)}
+SIZES = {"quick": (5000, 1500, 1500), "thorough": (100000, 25000, 30000)}
 
 
-def gen_cases(ck, n):
+def gen_cases(ck, n, n_nested=0):
     g = Gen(ck.rng)
     cases = list(CORPUS)
     per = max(1, n // len(FUNCS))
     for f in FUNCS:
         for _ in range(per):
             cases.append(gen_call(g, f))
+    for _ in range(n_nested):
+        cases.append(gen_nested(g))
     return cases
 
 
@@ -1421,9 +1763,13 @@ def run(tier, seed):
                       "length 0-6 over space/comma/slash/undecided x bracketed, scalars, maps and argument lists in list "
                       "position, indices -8..8, near-integers, fractions, with units, wrongly typed, missing and extra arguments; "
                       "nested maps with key paths mostly along existing entries; strings over ASCII, é, e+U+0301, 中, U+1F600. "
-                      "Every call is observed under its global name and its module member name through inspect(), type-of, "
-                      "list-separator, is-bracketed, length. A case is distinct by function and encoded arguments and non-trivial "
-                      "when it has at least one argument; law cases are distinct by their expressions.")
+                      "Nested calls (join/append/zip/set-nth results fed into join/append/zip/set-nth/nth/index/length/"
+                      "list-separator/is-bracketed, depth <= 4, single values and empty/one-element lists as frequent as proper "
+                      "lists): every intermediate and final result is a probe. Every probe is observed under its global name and "
+                      "its module member name through inspect(), type-of, list-separator, is-bracketed, length; for every "
+                      "list-valued result that has a literal spelling, `E == literal` and `literal == E` are probes too (expected "
+                      "answer from the model's veq). A probe is distinct by its expression text and non-trivial when the call has "
+                      "at least one argument; law cases are distinct by their expressions.")
     ck.assumptions = ["named arguments are outside the model (positional calls only)",
                       "map.deep-remove with a missing last intermediate key and string.split with an empty string or separator "
                       "are not settled by the documentation and are excluded (driver answers unsupported)",
@@ -1437,9 +1783,9 @@ def run(tier, seed):
         ck.unproved("correspondence-broken", {"why": "runner does not build against /repo", "error": getattr(ck, "build_error", "")})
         return ck.finish()
     pool = RunnerPool()
-    n_calls, n_laws = SIZES[tier]
+    n_calls, n_laws, n_nested = SIZES[tier]
     t2 = time.time()
-    cases = gen_cases(ck, n_calls)
+    cases = gen_cases(ck, n_calls, n_nested)
     failing = evaluate(ck, pool, cases)
     t3 = time.time()
     failing += run_laws(ck, pool, n_laws)
@@ -1449,7 +1795,7 @@ def run(tier, seed):
     unknown = [f for f in failing if not f["tags"]]
     if (not ck.proof["ok"] or ck.cov["model_disagreements"]) and not unknown and tier == "quick":
         log("[C14] proof or correspondence broken: enlarging the search")
-        extra = gen_cases(ck, 30000)[len(CORPUS):]
+        extra = gen_cases(ck, 25000, 6000)[len(CORPUS):]
         failing += evaluate(ck, pool, extra, direct_only=True)
         failing += run_laws(ck, pool, 8000)
     failing.sort(key=lambda f: (bool(f["tags"]), len(f["call"])))
